@@ -65,6 +65,16 @@ func (c *Ctx) Guard(rule, fnName, effLabel, effRe string, min int, clauses ...ir
 	}
 	effs := matches(fn, effRe)
 	if len(effs) < min {
+		// the value may be selected by a phi (results of an inlined helper, a variable assigned in every arm and
+		// stored once): the effect "store of alternative i" happens on the paths through the phi's i-th predecessor
+		if alts := phiStoreAlternatives(fn, re(effRe)); len(alts) >= min {
+			for i, a := range alts {
+				c.guardPhiAlt(rule, fnName, fn, fmt.Sprintf("%s[%d]", effLabel, i), a, clauses...)
+			}
+			return
+		}
+	}
+	if len(effs) < min {
 		c.R.Unknown(rule, fnName, "effect "+effLabel, c.P.FuncPos(fn),
 			fmt.Sprintf("expected at least %d instruction(s) matching /%s/, found %d: the anchored effect is not recognisable", min, effRe, len(effs)))
 		return
@@ -90,6 +100,69 @@ func (c *Ctx) guardOne(rule, fnName string, fn *ssa.Function, label string, e ss
 		detail := fmt.Sprintf("effect %q is reachable from the entry of %s without crossing an edge of guard {%s} (edges: %s); witness path: %s",
 			ir.InstrDesc(e), fnName, cl.Name, edgeLabels(cl), strings.Join(w.PathTo(c.P, e), " -> "))
 		c.R.Bad(rule, fnName, construct, c.pos(e), detail)
+	}
+}
+
+// phiAlt is one alternative of a phi stored by a Store instruction: the store behaves like "store addr=val" on the
+// paths that enter the phi's block from pred.
+type phiAlt struct {
+	store *ssa.Store
+	val   ssa.Value
+	pred  *ssa.BasicBlock // predecessor that selects the alternative
+	succ  int             // index of the phi's block among pred's successors
+}
+
+func phiStoreAlternatives(fn *ssa.Function, r *regexp.Regexp) []phiAlt {
+	var out []phiAlt
+	for _, in := range ir.Instrs(fn) {
+		st, ok := in.(*ssa.Store)
+		if !ok {
+			continue
+		}
+		ph, ok := st.Val.(*ssa.Phi)
+		if !ok {
+			continue
+		}
+		var walk func(ph *ssa.Phi, depth int)
+		walk = func(ph *ssa.Phi, depth int) {
+			for i, e := range ph.Edges {
+				if q, ok := e.(*ssa.Phi); ok && depth < 4 {
+					walk(q, depth+1)
+					continue
+				}
+				if !r.MatchString("store:" + ir.Desc(st.Addr) + "=" + ir.Desc(e)) {
+					continue
+				}
+				pred := ph.Block().Preds[i]
+				si := 0
+				for k, s := range pred.Succs {
+					if s == ph.Block() {
+						si = k
+					}
+				}
+				out = append(out, phiAlt{st, e, pred, si})
+			}
+		}
+		walk(ph, 0)
+	}
+	return out
+}
+
+func (c *Ctx) guardPhiAlt(rule, fnName string, fn *ssa.Function, label string, a phiAlt, clauses ...ir.Clause) {
+	last := a.pred.Instrs[len(a.pred.Instrs)-1]
+	for _, cl := range clauses {
+		construct := label + " guarded by {" + cl.Name + "}"
+		if cl.MatchEdge(a.pred, a.succ) {
+			c.R.OK(rule, fnName, construct, c.pos(a.store), "")
+			continue
+		}
+		ok, w := ir.GuardedBy(fn, last, cl)
+		if ok && w.CutCount > 0 {
+			c.R.OK(rule, fnName, construct, c.pos(a.store), "")
+			continue
+		}
+		c.R.Bad(rule, fnName, construct, c.pos(a.store), fmt.Sprintf("the value %q can be stored by %q on a path that does not cross an edge of guard {%s} (edges: %s); witness path: %s",
+			ir.Desc(a.val), ir.InstrDesc(a.store), cl.Name, edgeLabels(cl), strings.Join(w.PathTo(c.P, last), " -> ")))
 	}
 }
 
